@@ -18,6 +18,9 @@ pub uninterp spec fn s_sqrt(x: f64) -> f64;
 pub uninterp spec fn s_min(x: f64, y: f64) -> f64;
 pub uninterp spec fn s_clamp(x: f64, a: f64, b: f64) -> f64;
 pub uninterp spec fn INFINITY_s() -> f64;
+pub uninterp spec fn MIN_POSITIVE_s() -> f64;
+pub uninterp spec fn s_to_usize(x: f64) -> usize;
+pub uninterp spec fn s_round(x: f64) -> f64;
 pub uninterp spec fn s_max(x: f64, y: f64) -> f64;
 pub uninterp spec fn s_neg(x: f64) -> f64;
 pub uninterp spec fn s_of_usize(x: usize) -> f64;
@@ -70,9 +73,15 @@ pub broadcast axiom fn r_div_unit(a: f64, b: f64) ensures R(b) == 1real ==> R(#[
     R(a.div_spec(b)) > 1real && R(b) > 0real ==> R(a) > R(b), R(a.div_spec(b)) > 1real && R(b) < 0real ==> R(a) < R(b),
     R(b) < 0real ==> (R(a.div_spec(b)) > 0real <==> R(a) < 0real) && (R(a.div_spec(b)) < 0real <==> R(a) > 0real);
 pub broadcast axiom fn r_of_usize(x: usize) ensures R(#[trigger] s_of_usize(x)) >= 0real, x >= 1 ==> R(s_of_usize(x)) >= 1real;
+#[verifier::allow(broadcast_without_trigger)]
+pub broadcast axiom fn r_of_usize_5() ensures R(s_of_usize(5)) == 5real;
 pub broadcast axiom fn r_powf_le1(a: f64, p: f64) ensures R(a) >= 1real && R(p) <= 0real ==> 0real < R(#[trigger] s_powf(a, p)) <= 1real,
     R(a) > 1real && R(p) > 0real ==> R(s_powf(a, p)) > 1real;
 pub broadcast axiom fn r_mul_shrink(a: f64, b: f64) ensures 0real <= R(b) <= 4real / 5real ==> 5real * rabs(R(#[trigger] a.mul_spec(b))) <= 4real * rabs(R(a));
+#[verifier::allow(broadcast_without_trigger)]
+pub broadcast axiom fn r_min_positive() ensures R(MIN_POSITIVE_s()) > 0real;
+pub broadcast axiom fn r_clamp_cast(x: f64, a: f64, b: f64) ensures R(a) <= R(b) && R(b) <= 5real ==> #[trigger] s_to_usize(s_clamp(x, a, b)) <= 5;
+pub broadcast axiom fn r_mul_div_cancel(a: f64, b: f64) ensures R(b) != 0real ==> R(b.mul_spec(#[trigger] a.div_spec(b))) == R(a) && R(a.div_spec(b).mul_spec(b)) == R(a);
 pub broadcast axiom fn r_cmp(a: f64, b: f64) ensures #[trigger] a.partial_cmp_spec(&b) == (if R(a) < R(b) { Some(Ordering::Less) } else if R(a) == R(b) { Some(Ordering::Equal) } else { Some(Ordering::Greater) });
 pub broadcast axiom fn r_eq(a: f64, b: f64) ensures #[trigger] a.eq_spec(&b) == (R(a) == R(b));
 pub broadcast axiom fn r_signum(a: f64) ensures R(a) > 0real ==> R(#[trigger] s_signum(a)) == 1real, R(a) < 0real ==> R(s_signum(a)) == 0real - 1real, R(s_signum(a)) == 1real || R(s_signum(a)) == 0real - 1real;
@@ -87,7 +96,7 @@ pub broadcast axiom fn r_nan(a: f64) ensures !(#[trigger] s_is_nan(a));
 #[verifier::allow(broadcast_without_trigger)]
 pub broadcast axiom fn r_epsilon() ensures R(EPSILON_s()) > 0real;
 pub broadcast group f64_ops { f64_add_req, f64_sub_req, f64_mul_req, f64_div_req, f64_deterministic,
-    r_add, r_sub, r_mul, r_mul_unit_r, r_mul_unit_l, r_mul_sign, r_mul_sign2, r_mul_le, r_div_pos, r_div_special, r_mul_zero, r_div_one, r_div_unit, r_of_usize, r_powf_le1, r_mul_shrink, r_cmp, r_eq, r_signum, r_abs, r_min, r_max, r_clamp, r_neg, r_powf, r_sqrt, r_nan, r_epsilon }
+    r_add, r_sub, r_mul, r_mul_unit_r, r_mul_unit_l, r_mul_sign, r_mul_sign2, r_mul_le, r_div_pos, r_div_special, r_mul_zero, r_div_one, r_div_unit, r_of_usize, r_of_usize_5, r_powf_le1, r_mul_shrink, r_min_positive, r_clamp_cast, r_mul_div_cancel, r_cmp, r_eq, r_signum, r_abs, r_min, r_max, r_clamp, r_neg, r_powf, r_sqrt, r_nan, r_epsilon }
 }
 pub assume_specification [f64::signum] (x: f64) -> (r: f64) ensures r == s_signum(x);
 pub assume_specification [f64::abs] (x: f64) -> (r: f64) ensures r == s_abs(x);
@@ -101,4 +110,7 @@ pub assume_specification [f64::is_nan] (x: f64) -> (r: bool) ensures r == s_is_n
 #[verifier::external_body] pub fn vneg(x: f64) -> (r: f64) ensures r == s_neg(x) { -x }
 #[verifier::external_body] pub fn to_f(x: usize) -> (r: f64) ensures r == s_of_usize(x) { x as f64 }
 #[verifier::external_body] pub exec const F64_INFINITY: f64 ensures F64_INFINITY == INFINITY_s() { f64::INFINITY }
+#[verifier::external_body] pub exec const F64_MIN_POSITIVE: f64 ensures F64_MIN_POSITIVE == MIN_POSITIVE_s() { f64::MIN_POSITIVE }
+#[verifier::external_body] pub fn f_to_usize(x: f64) -> (r: usize) ensures r == s_to_usize(x) { x as usize }
+pub assume_specification [f64::round] (x: f64) -> (r: f64) ensures r == s_round(x);
 #[verifier::external_body] pub exec const F64_EPSILON: f64 ensures F64_EPSILON == EPSILON_s() { f64::EPSILON }
